@@ -4,7 +4,7 @@ import Sx.Model.Driver
 partial def loop (h : IO.FS.Stream) (out : IO.FS.Stream) (w : W.World) : IO Unit := do
   let line ← h.getLine
   if line.isEmpty then return ()
-  let l := String.ofList ((line.toList.reverse.dropWhile (fun c => c == (10 : Nat).toUInt8.toChar || c == (13 : Nat).toUInt8.toChar)).reverse)
+  let l := String.ofList ((line.toList.reverse.dropWhile (fun c => c == Char.ofNat 10 || c == Char.ofNat 13)).reverse)
   let (w', o) := Drv.step w l
   out.putStrLn o
   loop h out w'
